@@ -73,6 +73,10 @@ def h_alias(ctx, opn, form, shape, D, P):
             return x[0:1]
         if form.endswith('x[0]'):
             return x[0]
+        if form.endswith('x.data[0,0]'):
+            # a plain ndarray that is a view of the object's own nominal values (rescaling a
+            # series by its own base value)
+            return x.data[0, 0]
         raise KeyError(form)
     x = fresh()
     indep = view(fresh()).copy()          # an independent object with the same values as the view
@@ -243,7 +247,8 @@ def units(tier, seed):
     for opn in BIN:
         for form, shp in [('x op x', (2,)), ('x op x', (2, 2)), ('x op x[::-1]', (3,)), ('x op x.T', (2, 2)), ('x op x[0]', (2, 2)),
                           ('x op= x', (2,)), ('x op= x', (2, 2)), ('x op= x[::-1]', (3,)), ('x op= x.T', (2, 2)),
-                          ('x op= x[0:1]', (2, 2)), ('x op= x[0]', (2, 2))]:
+                          ('x op= x[0:1]', (2, 2)), ('x op= x[0]', (2, 2)), ('x op= x.data[0,0]', (2,)), ('x op= x.data[0,0]', (2, 2)),
+                          ('x op x.data[0,0]', (2,))]:
             add('alias/%s/%s/%s' % (form, opn, shp), 'h_alias', opn=opn, form=form, shape=shp, D=D, P=P)
     for opn in BIN:
         for form in ('row op= row[::-1]', 'window op= overlapping window', 'column op= other column', 'reshaped op= its transpose'):
